@@ -61,6 +61,7 @@ FirstBad ==
   ELSE IF "CreateOnce" \in Props /\ ~CreateOnce' THEN "CreateOnce"
   ELSE IF "CreateOnlyValid" \in Props /\ ~CreateOnlyValid' THEN "CreateOnlyValid"
   ELSE IF "OnePerClient" \in Props /\ ~OnePerClient' THEN "OnePerClient"
+  ELSE IF "FwdToNamed" \in Props /\ ~FwdToNamed' THEN "FwdToNamed"
   ELSE IF "FwdAuthentic" \in Props /\ ~FwdAuthentic' THEN "FwdAuthentic"
   ELSE IF "FwdOnce" \in Props /\ ~FwdOnce' THEN "FwdOnce"
   ELSE IF "FwdComplete" \in Props /\ ~FwdComplete' THEN "FwdComplete"
